@@ -19,8 +19,8 @@ RULE = ("enum (configuration sweep): a fixed list of operation scripts (evaluate
         "(knot vector, script, representation) triples")
 ASSUMPTIONS = ["well-conditioned inputs only (small alphabets); floats compared at 1e-9 relative", "the exact values are those of the "
                "Fraction run, which is itself compared with the reference model in the same execution"]
-SCRIPTS = ("eval", "basis", "insert", "insert_remove", "elevate", "elevate_reduce", "split", "split_join", "add", "sub", "mul",
-           "div", "fit_curve", "fit_points", "interp_points", "integrate")
+SCRIPTS = ("eval", "basis", "insert", "insert_remove", "elevate", "elevate_reduce", "elevate2", "elevate2_reduce2", "split",
+           "split_join", "add", "add2", "sub", "mul", "div", "fit_curve", "fit_points", "interp_points", "integrate")
 CUSTOM_SCRIPTS = ("eval", "insert", "elevate", "split")
 FLOAT_REPS = ("float", "npfloat", "nparray")
 
@@ -135,6 +135,20 @@ def run_script(name, U, p, P, rep):
         c.degree_increase(1)
         c.degree_decrease(1)
         return [list(c.knotvector)], list(c.ctrlpoints)
+    if name == "elevate2":
+        c.degree_increase(2)  # two degrees in one request
+        return [list(c.knotvector)], list(c.ctrlpoints) + curve_values(c, prm, rep)
+    if name == "elevate2_reduce2":
+        c.degree = p + 2
+        c.degree_decrease(2)
+        return [list(c.knotvector)], list(c.ctrlpoints)
+    if name == "add2":
+        # a partner two degrees higher: the sum elevates this curve by two degrees in one step
+        V = [ks[0]] * (p + 3) + [ks[-1]] * (p + 3)
+        Q = [F(x) for x in (2, 3, 5, 7, 11, 13, 17)[:p + 3]]
+        d = lib.Curve(conv_knots(V, rep), conv_pts(Q, rep))
+        r = c + d
+        return [list(r.knotvector)], list(r.ctrlpoints) + curve_values(r, prm, rep)
     if name == "split":
         pieces = c.split([num(mid, rep)])
         return [list(pc.knotvector) for pc in pieces], [x for pc in pieces for x in pc.ctrlpoints]
@@ -209,8 +223,19 @@ def reference(name, U, p, P):
         V = sorted(U + ([mid, mid] if p >= 1 else [mid])) if name == "insert" else sorted(U + ks)
         T = sp.basis_change(U, V, p, p if name == "insert" else p + 1)
         return [x[0] for x in sp.apply_matrix(T, [(x,) for x in P])] + [D.value(u) for u in prm]
-    if name in ("insert_remove", "elevate_reduce"):
+    if name in ("insert_remove", "elevate_reduce", "elevate2_reduce2"):
         return list(P)
+    if name in ("elevate2", "add2"):
+        V = sorted(U + ks + ks)
+        T = sp.basis_change(U, V, p, p + 2)
+        Q = [x[0] for x in sp.apply_matrix(T, [(x,) for x in P])]
+        if name == "elevate2":
+            return Q + [D.value(u) for u in prm]
+        W = [ks[0]] * (p + 3) + [ks[-1]] * (p + 3)
+        E = rb.denote(W, [F(x) for x in (2, 3, 5, 7, 11, 13, 17)[:p + 3]], None, p + 2)
+        T2 = sp.basis_change(W, V, p + 2, p + 2)
+        Q2 = [x[0] for x in sp.apply_matrix(T2, [(F(x),) for x in (2, 3, 5, 7, 11, 13, 17)[:p + 3]])]
+        return [a + b for a, b in zip(Q, Q2)] + [D.value(u) + E.value(u) for u in prm]
     if name == "split":
         out = []
         for a, b in ((ks[0], mid), (mid, ks[-1])):
@@ -304,7 +329,7 @@ def run_case(case, res):
         if big:
             continue
         # int control points: still exact
-        if name in ("eval", "insert", "elevate", "split", "integrate", "add", "mul"):
+        if name in ("eval", "insert", "elevate", "elevate2", "split", "integrate", "add", "add2", "mul"):
             res.transition()
             oi = lib.outcome(run_script, name, U, p, P, "intpts")
             res.state((tuple(U), name, "intpts"))
